@@ -60,6 +60,6 @@ impl Property for C01 {
         Verdict::Pass { nontrivial }
     }
     fn sample(&self, case: &DocCase) -> serde_json::Value {
-        serde_json::json!({"text": case.text, "ext": case.ext, "door": case.door})
+        serde_json::json!({"text": case.text, "ext": case.ext, "door": case.door, "prev": case.prev})
     }
 }
